@@ -110,6 +110,9 @@ pub enum LKind {
     Iri,
     BNode,
     Literal,
+    /// an IRI without a scheme (`<rel0>`): the store keeps terms in one lexical space, so nothing in the term itself
+    /// says that it is an IRI; it is known to be one wherever it already stands as a subject
+    RelIri,
 }
 
 /// Term kind from the lexical form (the generated universe keeps kinds lexically disjoint).
@@ -118,6 +121,8 @@ pub fn lkind(v: &str) -> LKind {
         LKind::BNode
     } else if v.starts_with("http://") || v.starts_with("urn:") {
         LKind::Iri
+    } else if v == "rel0" || v == "rel1" {
+        LKind::RelIri
     } else {
         LKind::Literal
     }
@@ -132,6 +137,9 @@ pub struct StepEffect {
     pub skipped_illegal: usize,
     pub skipped_unbound: usize,
     pub fresh_bnodes: usize,
+    /// instantiations whose legality the lexical form does not decide (a scheme-less IRI in a position where the
+    /// pre-operation dataset does not already show it): the step is not judged
+    pub undecided_kind: usize,
 }
 
 fn inst(t: &TT, sol: &Sol, si: usize, insert: bool, fresh: &mut BTreeSet<String>) -> Option<String> {
@@ -147,7 +155,8 @@ fn inst(t: &TT, sol: &Sol, si: usize, insert: bool, fresh: &mut BTreeSet<String>
     }
 }
 
-fn instantiate(tpl: &[TplQuad], sols: &[Sol], insert: bool, eff: &mut StepEffect) -> BTreeSet<LQuad> {
+fn instantiate(tpl: &[TplQuad], sols: &[Sol], insert: bool, eff: &mut StepEffect, pre: &LexData) -> BTreeSet<LQuad> {
+    let subject_in_pre = |t: &str| pre.default.iter().chain(pre.named.values().flatten()).any(|q| q[0] == t);
     let mut out = BTreeSet::new();
     let mut fresh = BTreeSet::new();
     for (si, sol) in sols.iter().enumerate() {
@@ -164,6 +173,12 @@ fn instantiate(tpl: &[TplQuad], sols: &[Sol], insert: bool, eff: &mut StepEffect
                 eff.skipped_unbound += 1;
                 continue;
             };
+            // a scheme-less IRI is certainly an IRI where the pre-operation dataset already has it as a subject; anywhere
+            // else (never a subject before, or in predicate / graph position) its kind is not decidable from the store
+            if (lkind(&s) == LKind::RelIri && !subject_in_pre(&s)) || lkind(&p) == LKind::RelIri || g.as_ref().map_or(false, |g| lkind(g) == LKind::RelIri) {
+                eff.undecided_kind += 1;
+                continue;
+            }
             // positions that RDF does not allow are skipped (SPARQL Update: illegal triples are not produced)
             let legal = lkind(&s) != LKind::Literal && lkind(&p) == LKind::Iri && g.as_ref().map_or(true, |g| lkind(g) == LKind::Iri);
             if !legal {
@@ -201,11 +216,11 @@ pub fn step_effect(op: &UpdOp, pre: &LexData) -> Option<StepEffect> {
     match op {
         UpdOp::InsertData(q) => {
             eff.solutions = 1;
-            eff.insert = instantiate(q, &unit, true, &mut eff);
+            eff.insert = instantiate(q, &unit, true, &mut eff, pre);
         }
         UpdOp::DeleteData(q) => {
             eff.solutions = 1;
-            eff.delete = instantiate(q, &unit, false, &mut eff);
+            eff.delete = instantiate(q, &unit, false, &mut eff, pre);
         }
         UpdOp::Modify { delete, insert, where_ } => {
             let ctx = EvalCtx::new(pre, &[], &[]);
@@ -214,16 +229,19 @@ pub fn step_effect(op: &UpdOp, pre: &LexData) -> Option<StepEffect> {
                 return None;
             }
             eff.solutions = sols.len();
-            eff.delete = instantiate(delete, &sols, false, &mut eff);
-            eff.insert = instantiate(insert, &sols, true, &mut eff);
+            eff.delete = instantiate(delete, &sols, false, &mut eff, pre);
+            eff.insert = instantiate(insert, &sols, true, &mut eff, pre);
         }
         UpdOp::DeleteWhere(tpl) => {
             let ctx = EvalCtx::new(pre, &[], &[]);
             let sols = eval_group(&tpl_to_elems(tpl), &ctx, &Active::Default);
             eff.solutions = sols.len();
-            eff.delete = instantiate(tpl, &sols, false, &mut eff);
+            eff.delete = instantiate(tpl, &sols, false, &mut eff, pre);
         }
         UpdOp::Rejected(_) => {}
+    }
+    if eff.undecided_kind > 0 {
+        return None;
     }
     Some(eff)
 }
